@@ -1116,12 +1116,25 @@ def delete_unused_functions_and_classes(
             yield def_node, None
 
 
+def _defines_preserved_member(node: ast.AST, scope: ast.ClassDef, preserve: Collection[str]) -> bool:
+    """Determine if a statement in a class body defines a member that must be preserved."""
+    if isinstance(node, (ast.FunctionDef, ast.AsyncFunctionDef, ast.ClassDef)):
+        names = {node.name}
+    elif isinstance(node, (ast.Assign, ast.AnnAssign, ast.AugAssign)):
+        names = {target.id for target in parsing.assignment_targets(node)}
+    else:
+        return False
+
+    return any(name in preserve or f"{scope.name}.{name}" in preserve for name in names)
+
+
 @processing.fix
-def delete_unreachable_code(source: str) -> str:
+def delete_unreachable_code(source: str, preserve: Collection[str] = frozenset()) -> str:
     """Find and delete dead code.
 
     Args:
         source (str): Python source code
+        preserve (Collection[str], optional): Names to preserve
 
     Returns:
         str: Source code with dead code deleted
@@ -1132,6 +1145,11 @@ def delete_unreachable_code(source: str) -> str:
     for node in parsing.iter_bodies_recursive(root):
         if not isinstance(node, (ast.If, ast.While)):
             for unreachable_node in _iter_unreachable_nodes(node.body):
+                if isinstance(node, ast.ClassDef) and _defines_preserved_member(
+                    unreachable_node, node, preserve
+                ):
+                    continue  # Members of a class are part of its interface, reachable or not
+
                 yield unreachable_node, None, transaction
 
             transaction += 1
